@@ -522,6 +522,17 @@ def generate(rng, tier):
             exact = sum(vals) & (sum(vals) - 1) == 0
         cases.append({"kind": "scale", "values": vals, "total": rng.choice([1, k - 1, k, k + 1, rng.randrange(1, 1000)]),
                       "exact": exact})
+    for _ in range(60 if big else 14):
+        # FEWER units than entries with skewed weights: one (or two) dominant weights own several units, most entries get none
+        k = rng.choice([3, 4, 5, 8, 17, 40, 65])
+        m = max(k.bit_length() + rng.randrange(1, 5), 4)
+        ndom = rng.choice([1, 1, 2])
+        tiny = k - ndom
+        dom_total = 2 ** m - tiny                      # weights sum to 2^m: the shares are exact in doubles
+        doms = [dom_total] if ndom == 1 else [dom_total // 2 + 1, dom_total - dom_total // 2 - 1]
+        vals = doms + [1] * tiny
+        rng.shuffle(vals)
+        cases.append({"kind": "scale", "values": vals, "total": rng.randrange(2, k) if k > 2 else 1, "exact": True})
     for _ in range(10 if big else 2):
         # F18 (known): totals from 2**52 on
         cases.append({"kind": "scale", "values": [1, 2, 5], "total": 2 ** 53 + 1 + 2 * rng.randrange(0, 2 ** 20), "exact": False})
